@@ -9,7 +9,8 @@ Shapes(inc, comp) == {
   G("eannulus", <<8>>, <<12>>, <<8, 24, 4, 16>>, 180, inc, comp),
   G("rectangle", <<16>>, <<16>>, <<12, 8>>, 40, inc, comp),
   G("polygon", <<0, 16, 8>>, <<0, 0, 12>>, <<>>, 0, inc, comp),
-  G("polygon", <<4, 20, 24, 12, 0>>, <<4, 0, 16, 28, 12>>, <<>>, 0, inc, comp)}
+  G("polygon", <<4, 20, 24, 12, 0>>, <<4, 0, 16, 28, 12>>, <<>>, 0, inc, comp),
+  G("polygon", <<0, 16, 16, 0>>, <<0, 0, 12, 12>>, <<>>, 0, inc, comp)}          \* axis-aligned box: the last edge is horizontal
 Unsupported == {[cls |-> "line"], [cls |-> "text"], [cls |-> "rannulus"], [cls |-> "compound"], [cls |-> "sky"]}
 NC == -1
 PoolQuick == UNION {Shapes(inc, comp) : inc \in {"absent", "F", "0", "T"}, comp \in {NC, 3}} \cup Unsupported
